@@ -14,6 +14,8 @@
 //	        of an input resource (Patient.birthDate, Observation.value[x])
 //	direct  system.{Date,DateTime,Time,Quantity}.{Add,Sub} called directly
 //	eq      ((x op q) op' q) = x   for the inverse-law cases
+//	eqr     (x op q) = <literal of the reference result>: the result seen
+//	        through the implementation's own equality (hidden components)
 //
 // A channel that does not apply to a case is {"k":"na"}.
 package main
@@ -67,12 +69,13 @@ type genRec struct {
 	EText string          `json:"etext"`
 	FText string          `json:"ftext"`
 	QText string          `json:"qtext"`
+	RText string          `json:"rtext"`
 	Xs    string          `json:"xs"`
 	N1    string          `json:"n1"`
 	N2    string          `json:"n2"`
 }
 
-var na = lib.Outcome{"k": "na"}
+func na() lib.Outcome { return lib.Outcome{"k": "na"} }
 
 // lexical renders the abstract temporal item in the lexical form shared by
 // FHIRPath (after '@' / '@T') and FHIR JSON. This is the harness's own
@@ -279,7 +282,7 @@ func main() {
 		if err := json.Unmarshal(g.Cs, &c); err != nil {
 			lib.Fatal("case %s: %v", g.ID, err)
 		}
-		outs := map[string]lib.Outcome{"lit": na, "env": na, "fhir": na, "direct": na, "eq": na}
+		outs := map[string]lib.Outcome{"lit": na(), "env": na(), "fhir": na(), "direct": na(), "eq": na(), "eqr": na()}
 		chkX, chkQ := true, true
 
 		q1, err := system.ParseQuantity(g.N1, c.Q.Unit)
@@ -324,6 +327,9 @@ func main() {
 			switch c.Kind {
 			case "ar":
 				outs["direct"] = guarded(func() (system.Any, error) { return addSub(x, c.Op, q1) })
+				if g.RText != "" {
+					outs["eqr"] = lib.EvalOutcome(nil, g.RText, nil, nil, nil)
+				}
 			case "inv":
 				outs["direct"] = guarded(func() (system.Any, error) {
 					y, err := addSub(x, c.Op, q1)
@@ -333,6 +339,12 @@ func main() {
 					return addSub(y, other(c.Op), q1)
 				})
 				outs["eq"] = lib.EvalOutcome(nil, g.QText, nil, nil, nil)
+			}
+		}
+		for _, o := range outs { // keep the records small: the judge never looks at error texts
+			delete(o, "cls")
+			if m, ok := o["msg"].(string); ok && len(m) > 48 {
+				o["msg"] = m[:48]
 			}
 		}
 		rec := map[string]any{"id": g.ID, "cs": g.Cs, "src": g.Text, "outs": outs, "chk": map[string]bool{"x": chkX, "q": chkQ}}
